@@ -105,7 +105,7 @@ impl Property for C02 {
     fn components_stubbed(&self) -> Vec<&'static str> { vec!["clients are harness futures calling the ShardedActorState API (connection-level concurrency is exercised in C04/C05)", "single OS thread: interleavings are at the granularity of process polls x mailbox arrivals, not of machine instructions"] }
     fn assumptions(&self) -> Vec<&'static str> { vec!["a multi-key command is required to be atomic per key only (it contributes one sub-operation per key sharing its interval)", "error replies are compared as 'an error', not by text"] }
     fn required_probes(&self) -> Vec<&'static str> { vec!["overlapping_ops_same_key", "cancel_mid_flight", "pooled_path_used", "script_overlapped_write"] }
-    fn runs(&self, tier: Tier) -> u64 { match tier { Tier::Quick => 6000, Tier::Thorough => 600_000 } }
+    fn runs(&self, tier: Tier) -> u64 { match tier { Tier::Quick => 300000, Tier::Thorough => 6000000 } }
 
     fn run(&self, src: &mut Src, ctx: &RunCtx) -> RunReport {
         let mut rep = RunReport::default();
